@@ -1,1 +1,557 @@
-// harness for rs/anda_db_schema/src/field.rs (mounted by #[cfg(kani)] hook)
+// @module field::verif_kani
+// Kani harnesses for rs/anda_db_schema/src/field.rs — property C13 (type/value decision kernels):
+// the acceptance matrix of FieldType::validate_inner, the read-back laws of FieldType::normalize,
+// type-driven extraction from decoded CBOR values, and the complexity budget.
+// One harness per concrete declared type (a symbolic FieldType stalls symbolic execution); the
+// FieldValue is a symbolic choice of variant with full-width payloads.
+// Under the format! stub `is_f32_read_back`'s JSON branch (format!("{f}").parse()) always answers
+// "no": these harnesses decide the CBOR (exact widening) half of the F32 rule only.
+use super::*;
+include!("/verif/harness/common.rs");
+
+/// scalar variants with full-width symbolic payloads
+fn any_scalar() -> FieldValue {
+    match kani::any::<u8>() % 6 {
+        0 => FieldValue::Bool(kani::any()),
+        1 => FieldValue::I64(kani::any()),
+        2 => FieldValue::U64(kani::any()),
+        3 => FieldValue::F64(kani::any()),
+        4 => FieldValue::F32(kani::any()),
+        _ => FieldValue::Null,
+    }
+}
+/// discriminant + payload bits, so "unchanged" can be stated without PartialEq (NaN != NaN)
+fn sig(v: &FieldValue) -> (u8, u64) {
+    match v {
+        FieldValue::Bool(b) => (0, *b as u64),
+        FieldValue::I64(i) => (1, *i as u64),
+        FieldValue::U64(u) => (2, *u),
+        FieldValue::F64(f) => (3, f.to_bits()),
+        FieldValue::F32(f) => (4, f.to_bits() as u64),
+        FieldValue::Null => (5, 0),
+        FieldValue::Bytes(_) => (6, 0),
+        FieldValue::Text(_) => (7, 0),
+        FieldValue::Json(_) => (8, 0),
+        FieldValue::Vector(_) => (9, 0),
+        FieldValue::Array(_) => (10, 0),
+        FieldValue::Map(_) => (11, 0),
+    }
+}
+/// exact-widening half of the F32 read-back rule, written from the documentation
+fn widens_exactly(v: f64) -> bool {
+    if v.is_nan() {
+        return false;
+    }
+    let f = v as f32;
+    !(f.is_infinite() && v.is_finite()) && (f as f64) == v
+}
+/// the documented acceptance rule for scalar declared types over scalar values
+fn accepts_scalar(t: u8, v: &FieldValue) -> bool {
+    match (t, v) {
+        (0, FieldValue::Bool(_)) => true,
+        (1, FieldValue::I64(_)) => true,
+        (1, FieldValue::U64(u)) => *u <= i64::MAX as u64,
+        (2, FieldValue::U64(_)) => true,
+        (3, FieldValue::F64(f)) => !f.is_nan(),
+        (4, FieldValue::F32(f)) => !f.is_nan(),
+        (4, FieldValue::F64(f)) => widens_exactly(*f),
+        _ => false,
+    }
+}
+fn scalar_type(t: u8) -> FieldType {
+    match t {
+        0 => FieldType::Bool,
+        1 => FieldType::I64,
+        2 => FieldType::U64,
+        3 => FieldType::F64,
+        _ => FieldType::F32,
+    }
+}
+
+/// K1 + K2 for one scalar declared type against every scalar value.
+fn scalar_row(t: u8) {
+    let ty = scalar_type(t);
+    let mut v = any_scalar();
+    let before = sig(&v);
+    let accepted = ty.validate_inner(&v).is_ok();
+    let expect = accepts_scalar(t, &v);
+    assert!(accepted == expect, "accepted iff the value is of the declared variant (non-NaN floats) or one of the documented read-back shapes");
+    ty.normalize(&mut v);
+    let after = sig(&v);
+    if expect {
+        // read-back shapes fold into the declared variant with the payload preserved
+        match t {
+            1 => assert!(after.0 == 1 && after.1 == before.1, "I64: U64(v <= i64::MAX) normalizes to I64(v)"),
+            4 => {
+                assert!(after.0 == 4, "F32: accepted values normalize to F32");
+                if before.0 == 3 {
+                    let x = f64::from_bits(before.1);
+                    assert!(after.1 == (x as f32).to_bits() as u64 && (f32::from_bits(after.1 as u32) as f64) == x, "F32: exact widening narrows back to the very same f32 (sign of zero, subnormals, infinities included)");
+                } else {
+                    assert!(after.1 == before.1, "F32: canonical value untouched");
+                }
+            }
+            _ => assert!(after == before, "canonical value untouched"),
+        }
+        assert!(ty.validate_inner(&v).is_ok(), "a normalized accepted value validates");
+    } else {
+        assert!(after == before, "a value that is not a read-back shape is left unchanged");
+        assert!(ty.validate_inner(&v).is_err(), "normalization never turns an invalid value into a valid one");
+    }
+    // idempotent
+    ty.normalize(&mut v);
+    assert!(sig(&v) == after, "normalize is idempotent");
+    // Null is accepted only under Option
+    if before.0 == 5 {
+        assert!(!accepted, "Null is rejected by a non-Option type");
+    }
+    kani::cover!(expect && before.0 != after.0, "a read-back shape was folded");
+    kani::cover!(!expect && before.0 != 5, "a non-null value rejected");
+    kani::cover!(expect && before.0 == after.0, "canonical value accepted");
+    std::mem::forget((v, ty));
+}
+macro_rules! row {
+    ($name:ident, $t:expr) => {
+        #[kani::proof]
+        #[kani::unwind(1)]
+        #[kani::stub(alloc::fmt::format, fmt_stub)]
+        fn $name() {
+            scalar_row($t);
+        }
+    };
+}
+// Bool / U64 / F64 never fold a read-back shape, so the first cover would be unsatisfiable there;
+// they get their own body without it.
+fn scalar_row_plain(t: u8) {
+    let ty = scalar_type(t);
+    let mut v = any_scalar();
+    let before = sig(&v);
+    let accepted = ty.validate_inner(&v).is_ok();
+    let expect = accepts_scalar(t, &v);
+    assert!(accepted == expect, "accepted iff the value is of the declared variant (non-NaN floats)");
+    ty.normalize(&mut v);
+    assert!(sig(&v) == before, "nothing to normalize for this type: value unchanged");
+    if before.0 == 5 {
+        assert!(!accepted, "Null is rejected by a non-Option type");
+    }
+    kani::cover!(expect, "canonical value accepted");
+    kani::cover!(!expect && before.0 != 5, "a non-null value rejected");
+    std::mem::forget((v, ty));
+}
+macro_rules! row_plain {
+    ($name:ident, $t:expr) => {
+        #[kani::proof]
+        #[kani::unwind(1)]
+        #[kani::stub(alloc::fmt::format, fmt_stub)]
+        fn $name() {
+            scalar_row_plain($t);
+        }
+    };
+}
+
+// @check id=C13 tier=quick cap=900 role=acceptance_matrix_scalars harness=c13_row_i64,c13_row_f32,c13_row_bool,c13_row_u64,c13_row_f64
+// @fns FieldType::validate_inner, FieldType::normalize, FieldType::normalize_at, field::is_f32_read_back
+// @bound declared type concrete per harness (Bool, I64, U64, F64, F32); value a symbolic choice among Bool / I64 / U64 / F64 / F32 / Null with full-width payloads (every i64, u64, f32 and f64 bit pattern)
+// @stubs alloc::fmt::format -> String::new() (error messages; cuts the JSON shortest-decimal branch of is_f32_read_back)
+row!(c13_row_i64, 1);
+row!(c13_row_f32, 4);
+row_plain!(c13_row_bool, 0);
+row_plain!(c13_row_u64, 2);
+row_plain!(c13_row_f64, 3);
+
+// heap-carrying values against scalar types, and scalar values against heap types: always rejected
+// @check id=C13 tier=quick cap=900 role=acceptance_matrix_cross_kind
+// @fns FieldType::validate_inner
+// @bound declared Bytes / Text / Vector vs every scalar value (symbolic variant, full-width payload); declared I64 and F32 vs Bytes[b] and Text("t")
+// @stubs alloc::fmt::format -> String::new()
+#[kani::proof]
+#[kani::unwind(2)]
+#[kani::stub(alloc::fmt::format, fmt_stub)]
+fn c13_cross_kind_is_rejected() {
+    let s = any_scalar();
+    assert!(FieldType::Bytes.validate_inner(&s).is_err(), "Bytes rejects every scalar");
+    assert!(FieldType::Text.validate_inner(&s).is_err(), "Text rejects every scalar");
+    assert!(FieldType::Vector.validate_inner(&s).is_err(), "Vector rejects every scalar");
+    let h0 = FieldValue::Bytes(vec![kani::any()]);
+    let h1 = FieldValue::Text(String::from("t"));
+    assert!(FieldType::I64.validate_inner(&h0).is_err() && FieldType::I64.validate_inner(&h1).is_err(), "I64 rejects bytes and text");
+    assert!(FieldType::F32.validate_inner(&h0).is_err() && FieldType::F32.validate_inner(&h1).is_err(), "F32 rejects bytes and text");
+    assert!(FieldType::Bytes.validate_inner(&h0).is_ok() && FieldType::Bytes.validate_inner(&h1).is_err(), "Bytes accepts exactly Bytes");
+    assert!(FieldType::Text.validate_inner(&h1).is_ok() && FieldType::Text.validate_inner(&h0).is_err(), "Text accepts exactly Text");
+    kani::cover!(sig(&s).0 == 2, "U64 offered to Bytes/Text/Vector");
+    kani::cover!(sig(&s).0 == 5, "Null offered");
+    std::mem::forget((h0, h1, s));
+}
+
+// Option(T): Null or whatever T accepts. (normalize on a value whose *variant* is symbolic is only
+// affordable at unwind(1): the overwritten value's recursive drop glue is unfolded to the unwind bound.
+// Composite normalization is therefore decided on concrete variants with symbolic payloads.)
+// @check id=C13 tier=quick cap=900 role=option_wrapping
+// @fns FieldType::validate_inner
+// @bound declared Option(I64); value any scalar (Bool / I64 / U64 / F64 / F32 / Null) with full-width payload
+// @stubs alloc::fmt::format -> String::new()
+#[kani::proof]
+#[kani::unwind(2)]
+#[kani::stub(alloc::fmt::format, fmt_stub)]
+fn c13_option_accepts_null_or_inner() {
+    let v = any_scalar();
+    let is_null = sig(&v).0 == 5;
+    let ty = FieldType::Option(Box::new(FieldType::I64));
+    let expect = is_null || accepts_scalar(1, &v);
+    assert!(ty.validate_inner(&v).is_ok() == expect, "Option(I64) accepts Null or what I64 accepts, nothing else");
+    kani::cover!(is_null, "null accepted");
+    kani::cover!(expect && sig(&v).0 == 2, "U64 read-back accepted inside Option(I64)");
+    kani::cover!(!expect, "rejected");
+    std::mem::forget((v, ty));
+}
+
+// @check id=C13 tier=quick cap=900 role=option_normalize
+// @fns FieldType::normalize, FieldType::normalize_at
+// @bound declared Option(I64); values U64(any), I64(any), Null (one concrete variant per call, symbolic payload)
+// @stubs alloc::fmt::format -> String::new()
+#[kani::proof]
+#[kani::unwind(2)]
+#[kani::stub(alloc::fmt::format, fmt_stub)]
+fn c13_option_normalizes_inner_read_back() {
+    let ty = FieldType::Option(Box::new(FieldType::I64));
+    let u: u64 = kani::any();
+    let mut v = FieldValue::U64(u);
+    ty.normalize(&mut v);
+    assert!(if u <= i64::MAX as u64 { sig(&v) == (1, u) } else { sig(&v) == (2, u) }, "U64 read-back folded to I64 inside Option iff it fits");
+    let i: i64 = kani::any();
+    let mut w = FieldValue::I64(i);
+    ty.normalize(&mut w);
+    assert!(sig(&w) == (1, i as u64), "canonical value unchanged");
+    let mut n = FieldValue::Null;
+    ty.normalize(&mut n);
+    assert!(sig(&n).0 == 5, "Null unchanged");
+    kani::cover!(u > i64::MAX as u64, "too large to fold");
+    kani::cover!(u <= i64::MAX as u64, "folded");
+    std::mem::forget((v, w, n, ty));
+}
+
+fn any_elem() -> FieldValue {
+    match kani::any::<u8>() % 4 {
+        0 => FieldValue::I64(kani::any()),
+        1 => FieldValue::U64(kani::any()),
+        2 => FieldValue::Bool(kani::any()),
+        _ => FieldValue::Null,
+    }
+}
+fn elems(n: usize) -> Vec<FieldValue> {
+    let mut v = Vec::with_capacity(3);
+    let mut i = 0;
+    while i < n {
+        v.push(any_elem());
+        i += 1;
+    }
+    v
+}
+
+// homogeneous array Array[I64]
+// @check id=C13 tier=quick cap=900 role=array_homogeneous
+// @fns FieldType::validate_inner
+// @bound declared Array[I64]; value an Array of 2 elements, each a symbolic choice among I64 / U64 / Bool / Null with full-width payloads; plus the empty array
+// @stubs alloc::fmt::format -> String::new()
+#[kani::proof]
+#[kani::unwind(3)]
+#[kani::stub(alloc::fmt::format, fmt_stub)]
+fn c13_array_of_i64_elementwise() {
+    let ty = FieldType::Array(vec![FieldType::I64]);
+    let (e0, e1) = (any_elem(), any_elem());
+    let (ok0, ok1) = (accepts_scalar(1, &e0), accepts_scalar(1, &e1));
+    let s1 = sig(&e1);
+    let v = FieldValue::Array(vec![e0, e1]);
+    assert!(ty.validate_inner(&v).is_ok() == (ok0 && ok1), "a homogeneous array is accepted iff every element is");
+    let empty = FieldValue::Array(Vec::new());
+    assert!(ty.validate_inner(&empty).is_ok(), "the empty array is accepted");
+    kani::cover!(ok0 && !ok1, "second element decides");
+    kani::cover!(ok0 && ok1 && s1.0 == 2, "accepted with a read-back element");
+    std::mem::forget((v, ty, empty));
+}
+
+// @check id=C13 tier=quick cap=900 role=array_normalize
+// @fns FieldType::normalize, FieldType::normalize_at
+// @bound declared Array[I64]; value [U64(any), I64(any)] and [Null, U64(any)] (concrete variants, symbolic payloads)
+// @stubs alloc::fmt::format -> String::new()
+#[kani::proof]
+#[kani::unwind(3)]
+#[kani::stub(alloc::fmt::format, fmt_stub)]
+fn c13_array_normalizes_elementwise() {
+    let ty = FieldType::Array(vec![FieldType::I64]);
+    let (u, i, u2): (u64, i64, u64) = (kani::any(), kani::any(), kani::any());
+    let mut v = FieldValue::Array(vec![FieldValue::U64(u), FieldValue::I64(i)]);
+    ty.normalize(&mut v);
+    if let FieldValue::Array(items) = &v {
+        assert!(items.len() == 2, "length preserved");
+        assert!(if u <= i64::MAX as u64 { sig(&items[0]) == (1, u) } else { sig(&items[0]) == (2, u) }, "element 0 folded iff it fits");
+        assert!(sig(&items[1]) == (1, i as u64), "element 1 unchanged");
+    } else {
+        assert!(false, "still an array");
+    }
+    let mut w = FieldValue::Array(vec![FieldValue::Null, FieldValue::U64(u2)]);
+    ty.normalize(&mut w);
+    if let FieldValue::Array(items) = &w {
+        assert!(sig(&items[0]).0 == 5, "a Null element is left alone");
+        assert!(if u2 <= i64::MAX as u64 { sig(&items[1]) == (1, u2) } else { sig(&items[1]) == (2, u2) }, "normalization is applied to every position");
+    } else {
+        assert!(false, "still an array");
+    }
+    kani::cover!(u > i64::MAX as u64 && u2 <= i64::MAX as u64, "one folded, one not");
+    std::mem::forget((v, w, ty));
+}
+
+// tuple array Array[I64, U64]: arity is exact
+// @check id=C13 tier=quick cap=900 role=array_tuple_arity
+// @fns FieldType::validate_inner
+// @bound declared Array[I64, U64]; value an Array of 0..3 elements, each a symbolic choice among I64 / U64 / Bool / Null
+// @stubs alloc::fmt::format -> String::new()
+#[kani::proof]
+#[kani::unwind(4)]
+#[kani::stub(alloc::fmt::format, fmt_stub)]
+fn c13_tuple_array_arity_is_exact() {
+    let ty = FieldType::Array(vec![FieldType::I64, FieldType::U64]);
+    let n: usize = kani::any();
+    kani::assume(n <= 3);
+    let items = elems(n);
+    let expect = n == 2 && accepts_scalar(1, &items[0]) && accepts_scalar(2, &items[1]);
+    let v = FieldValue::Array(items);
+    assert!(ty.validate_inner(&v).is_ok() == expect, "a tuple array needs exactly the declared arity and each position its own type");
+    kani::cover!(expect, "accepted pair");
+    kani::cover!(n == 3, "too long");
+    kani::cover!(n == 1, "too short");
+    std::mem::forget((v, ty));
+}
+
+// Vector: canonical Vector, or the read-back shape Array of U64 bf16 bit patterns
+// @check id=C13 tier=quick cap=900 role=vector_read_back
+// @fns FieldType::validate_inner
+// @bound declared Vector; value an Array of 2 elements (each I64 / U64 / Bool / Null, full width)
+// @stubs alloc::fmt::format -> String::new()
+#[kani::proof]
+#[kani::unwind(4)]
+#[kani::stub(alloc::fmt::format, fmt_stub)]
+fn c13_vector_accepts_bf16_bit_arrays_only() {
+    let ty = FieldType::Vector;
+    let (e0, e1) = (any_elem(), any_elem());
+    let is_bits = |v: &FieldValue| matches!(v, FieldValue::U64(u) if *u <= 0xFFFF);
+    let all_bits = is_bits(&e0) && is_bits(&e1);
+    let first_ok = is_bits(&e0);
+    let v = FieldValue::Array(vec![e0, e1]);
+    assert!(ty.validate_inner(&v).is_ok() == all_bits, "Vector accepts an array iff every element is a u16 bit pattern; a larger integer is rejected, not truncated");
+    kani::cover!(all_bits, "read-back array accepted");
+    kani::cover!(!all_bits && first_ok, "second element too large or of another kind");
+    std::mem::forget((v, ty));
+}
+
+// @check id=C13 tier=quick cap=900 role=vector_normalize
+// @fns FieldType::normalize
+// @bound declared Vector; value [U64(any), U64(any)]
+// @stubs alloc::fmt::format -> String::new()
+#[kani::proof]
+#[kani::unwind(4)]
+#[kani::stub(alloc::fmt::format, fmt_stub)]
+fn c13_vector_normalizes_bit_arrays() {
+    let (b0, b1): (u64, u64) = (kani::any(), kani::any());
+    let mut v = FieldValue::Array(vec![FieldValue::U64(b0), FieldValue::U64(b1)]);
+    FieldType::Vector.normalize(&mut v);
+    let all_bits = b0 <= 0xFFFF && b1 <= 0xFFFF;
+    match &v {
+        FieldValue::Vector(x) => {
+            assert!(all_bits, "only the read-back shape is folded");
+            assert!(x.len() == 2 && x[0].to_bits() as u64 == b0 && x[1].to_bits() as u64 == b1, "bit patterns preserved (non-finite ones included)");
+        }
+        FieldValue::Array(_) => assert!(!all_bits, "an array that is not a read-back shape is left as it is"),
+        _ => assert!(false, "no other variant appears"),
+    }
+    kani::cover!(all_bits && (b0 & 0x7f80) == 0x7f80, "non-finite pattern folded");
+    kani::cover!(!all_bits && b0 <= 0xFFFF, "second element too large");
+    std::mem::forget(v);
+}
+
+// @check id=C13 tier=quick cap=900 role=vector_canonical
+// @fns FieldType::validate_inner, FieldType::normalize
+// @bound declared Vector; value a Vector of one bf16 with any bit pattern
+// @stubs alloc::fmt::format -> String::new()
+#[kani::proof]
+#[kani::unwind(3)]
+#[kani::stub(alloc::fmt::format, fmt_stub)]
+fn c13_vector_canonical_value_untouched() {
+    let bits: u16 = kani::any();
+    let mut v = FieldValue::Vector(vec![bf16::from_bits(bits)]);
+    assert!(FieldType::Vector.validate_inner(&v).is_ok(), "a Vector is accepted by Vector");
+    FieldType::Vector.normalize(&mut v);
+    assert!(matches!(&v, FieldValue::Vector(x) if x.len() == 1 && x[0].to_bits() == bits), "canonical vector untouched, NaN bit patterns included");
+    kani::cover!((bits & 0x7f80) == 0x7f80, "non-finite bf16 pattern");
+    kani::cover!(bits == 0x8000, "negative zero");
+    std::mem::forget(v);
+}
+
+// K3: type-driven extraction from decoded CBOR values ------------------------------------------
+fn any_int() -> cbor2::value::Integer {
+    if kani::any() { cbor2::value::Integer::from(kani::any::<i64>()) } else { cbor2::value::Integer::from(kani::any::<u64>()) }
+}
+fn int_value(i: cbor2::value::Integer) -> i128 {
+    i128::from(i)
+}
+
+// @check id=C13 tier=quick cap=900 role=extract_integers
+// @fns FieldValue::i64_from, FieldValue::u64_from, FieldValue::bf16_from, FieldType::extract, FieldType::extract_at
+// @bound CBOR Integer: every i64 and every u64 value (the whole range -2^63 .. 2^64-1)
+// @stubs alloc::fmt::format -> String::new()
+#[kani::proof]
+#[kani::unwind(2)]
+#[kani::stub(alloc::fmt::format, fmt_stub)]
+fn c13_extract_integers_exact_or_error() {
+    let i = any_int();
+    let x = int_value(i);
+    let r = FieldType::I64.extract(Cbor::Integer(i));
+    match &r {
+        Ok(FieldValue::I64(v)) => assert!(*v as i128 == x, "I64 extracted exactly"),
+        Ok(_) => assert!(false, "I64 extraction yields I64"),
+        Err(_) => assert!(x > i64::MAX as i128 || x < i64::MIN as i128, "I64 rejects only out-of-range integers"),
+    }
+    let r2 = FieldType::U64.extract(Cbor::Integer(i));
+    match &r2 {
+        Ok(FieldValue::U64(v)) => assert!(*v as i128 == x, "U64 extracted exactly"),
+        Ok(_) => assert!(false, "U64 extraction yields U64"),
+        Err(_) => assert!(x < 0, "U64 rejects only negative integers"),
+    }
+    let r3 = FieldValue::bf16_from(Cbor::Integer(i));
+    match &r3 {
+        Ok(b) => assert!(b.to_bits() as i128 == x, "bf16 bit pattern extracted exactly"),
+        Err(_) => assert!(x < 0 || x > 0xFFFF, "bf16 rejects (does not truncate) anything outside u16"),
+    }
+    // accepted-on-read implies valid
+    if let Ok(v) = &r {
+        assert!(FieldType::I64.validate_inner(v).is_ok(), "an extracted I64 validates");
+    }
+    kani::cover!(r.is_err() && r2.is_ok(), "above i64::MAX");
+    kani::cover!(r.is_ok() && r2.is_err(), "negative");
+    kani::cover!(r3.is_ok() && x == 0xFFFF, "largest bf16 pattern");
+    std::mem::forget((r, r2, r3));
+}
+
+// @check id=C13 tier=quick cap=900 role=extract_floats
+// @fns FieldValue::f32_from, FieldValue::f64_from, FieldType::extract
+// @bound CBOR Float: every f64 bit pattern
+// @stubs alloc::fmt::format -> String::new()
+#[kani::proof]
+#[kani::unwind(2)]
+#[kani::stub(alloc::fmt::format, fmt_stub)]
+fn c13_extract_floats_reject_nan_and_overflow() {
+    let f: f64 = kani::any();
+    let r = FieldType::F32.extract(Cbor::Float(f));
+    match &r {
+        Ok(FieldValue::F32(v)) => {
+            assert!(!f.is_nan(), "NaN is never extracted");
+            assert!(!(v.is_infinite() && f.is_finite()), "a finite value is never turned into an infinity");
+            assert!(v.to_bits() == (f as f32).to_bits(), "nearest f32");
+            assert!(FieldType::F32.validate_inner(&FieldValue::F32(*v)).is_ok(), "an extracted F32 validates");
+        }
+        Ok(_) => assert!(false, "F32 extraction yields F32"),
+        Err(_) => assert!(f.is_nan() || ((f as f32).is_infinite() && f.is_finite()), "F32 rejects only NaN and finite values beyond the f32 range"),
+    }
+    let r2 = FieldType::F64.extract(Cbor::Float(f));
+    match &r2 {
+        Ok(FieldValue::F64(v)) => assert!(v.to_bits() == f.to_bits() && !f.is_nan(), "F64 extracted bit-exactly"),
+        Ok(_) => assert!(false, "F64 extraction yields F64"),
+        Err(_) => assert!(f.is_nan(), "F64 rejects only NaN"),
+    }
+    kani::cover!(r.is_err() && !f.is_nan(), "finite overflow rejected");
+    kani::cover!(matches!(&r, Ok(FieldValue::F32(v)) if v.is_infinite()), "explicit infinity passes");
+    std::mem::forget((r, r2));
+}
+
+// a stored f32 read back through CBOR (exact widening) is always accepted and narrows back bit-exactly
+// @check id=C13 tier=quick cap=900 role=f32_cbor_read_back
+// @fns FieldType::validate_inner, FieldType::normalize, field::is_f32_read_back
+// @bound every non-NaN f32 bit pattern (negative zero, subnormals, infinities)
+// @stubs alloc::fmt::format -> String::new() (cuts the JSON shortest-decimal branch)
+#[kani::proof]
+#[kani::unwind(1)]
+#[kani::stub(alloc::fmt::format, fmt_stub)]
+fn c13_f32_widened_by_cbor_reads_back_exactly() {
+    let x: f32 = kani::any();
+    kani::assume(!x.is_nan());
+    let mut back = FieldValue::F64(x as f64);
+    assert!(FieldType::F32.validate_inner(&back).is_ok(), "the exact widening of any non-NaN f32 is a valid F32 read-back");
+    FieldType::F32.normalize(&mut back);
+    assert!(matches!(&back, FieldValue::F32(y) if y.to_bits() == x.to_bits()), "and normalizes to the very same f32");
+    kani::cover!(x == 0.0 && x.is_sign_negative(), "negative zero");
+    kani::cover!(x.is_infinite(), "infinity");
+    kani::cover!(x != 0.0 && x.abs() < f32::MIN_POSITIVE, "subnormal");
+    std::mem::forget(back);
+}
+
+// wrong CBOR kind for a scalar type is an error, never a coercion
+// @check id=C13 tier=quick cap=900 role=extract_kind_mismatch
+// @fns FieldType::extract, FieldValue::bool_from, FieldValue::i64_from, FieldValue::u64_from, FieldValue::f64_from, FieldValue::f32_from
+// @bound CBOR value a symbolic choice among Bool(any) / Integer(any i64 or u64) / Float(any) / Null; declared type each scalar type
+// @stubs alloc::fmt::format -> String::new()
+#[kani::proof]
+#[kani::unwind(1)]
+#[kani::stub(alloc::fmt::format, fmt_stub)]
+fn c13_extract_never_coerces_between_kinds() {
+    let k: u8 = kani::any();
+    kani::assume(k < 4);
+    let b: bool = kani::any();
+    let i = any_int();
+    let f: f64 = kani::any();
+    let mk = |k: u8| match k {
+        0 => Cbor::Bool(b),
+        1 => Cbor::Integer(i),
+        2 => Cbor::Float(f),
+        _ => Cbor::Null,
+    };
+    let rb = FieldType::Bool.extract(mk(k));
+    let ri = FieldType::I64.extract(mk(k));
+    let ru = FieldType::U64.extract(mk(k));
+    let rf = FieldType::F64.extract(mk(k));
+    let r32 = FieldType::F32.extract(mk(k));
+    assert!(rb.is_ok() == (k == 0), "Bool only from a CBOR bool");
+    assert!(!ri.is_ok() || k == 1, "I64 only from a CBOR integer (no float, bool or null coercion)");
+    assert!(!ru.is_ok() || k == 1, "U64 only from a CBOR integer");
+    assert!(!rf.is_ok() || k == 2, "F64 only from a CBOR float (no integer coercion)");
+    assert!(!r32.is_ok() || k == 2, "F32 only from a CBOR float");
+    kani::cover!(k == 3, "null offered");
+    kani::cover!(k == 2 && rf.is_ok(), "float accepted by F64");
+    kani::cover!(k == 1 && ri.is_ok() && ru.is_ok(), "integer accepted by both integer types");
+    std::mem::forget((rb, ri, ru, rf, r32));
+}
+
+// (consumes a Vec<Cbor>: the recursive drop glue of cbor2::Value is unfolded to the unwind bound; > 240 s)
+// @check id=C13 tier=thorough cap=1500 role=extract_bytes_from_int_array
+// @fns FieldValue::bytes_from
+// @bound CBOR array of 2 integers, each any i64 / u64: accepted iff every element is in 0..=255, bytes preserved in order
+// @stubs alloc::fmt::format -> String::new()
+#[kani::proof]
+#[kani::unwind(4)]
+#[kani::stub(alloc::fmt::format, fmt_stub)]
+fn c13_bytes_from_integer_array_checks_every_element() {
+    let (i0, i1) = (any_int(), any_int());
+    let (x0, x1) = (int_value(i0), int_value(i1));
+    let r = FieldValue::bytes_from(Cbor::Array(vec![Cbor::Integer(i0), Cbor::Integer(i1)]));
+    let in_range = |x: i128| x >= 0 && x <= 255;
+    let expect = in_range(x0) && in_range(x1);
+    assert!(r.is_ok() == expect, "an integer array is bytes iff every element fits a byte");
+    if let Ok(FieldValue::Bytes(b)) = &r {
+        assert!(b.len() == 2 && b[0] as i128 == x0 && b[1] as i128 == x1, "bytes preserved in order");
+    }
+    kani::cover!(in_range(x0) && !in_range(x1), "second element out of range");
+    kani::cover!(expect, "two bytes");
+    std::mem::forget(r);
+}
+
+// @check id=C13 tier=thorough cap=600 expect=fail role=witness
+// @fns FieldType::validate_inner
+// @bound vacuity twin: must come back FAILED
+#[kani::proof]
+#[kani::unwind(1)]
+#[kani::stub(alloc::fmt::format, fmt_stub)]
+fn c13_witness_must_fail() {
+    let v = any_scalar();
+    let ok = FieldType::I64.validate_inner(&v).is_ok();
+    std::mem::forget(v);
+    assert!(!ok && ok, "reachability witness");
+}
